@@ -146,6 +146,11 @@ class Runner:
             # a reference interpreter could not process a generated input: generator fault
             st.rejects["worker:" + str(e)[:80]] = st.rejects.get("worker:" + str(e)[:80], 0) + 1
             return None
+        return self.ingest(case, res, origin)
+
+    def ingest(self, case, res, origin="gen"):
+        """Book-keeping for one judged case."""
+        st = self.stats
         st.cases += 1
         if res.reject:
             st.rejects[res.reject] = st.rejects.get(res.reject, 0) + 1
@@ -215,8 +220,9 @@ class Runner:
         case, evals = minimize(best[1], fails, limit)
         if case is not best[1]:
             res = prop.judge(case, ctx)
-            f = [f for f in res.failures if f.sig == sig][0]
-            best[0], best[1], best[2] = case_size(case), case, f.to_json()
+            fs = [f for f in res.failures if f.sig == sig]
+            if fs:          # (a flaky oracle would not reproduce: keep the original case then)
+                best[0], best[1], best[2] = case_size(case), case, fs[0].to_json()
         best[3] = best[3] + "+minimised(%d evals)" % evals
 
     def run(self, examples):
